@@ -129,11 +129,8 @@ def configurations(tier):
 def main():
     tier = common.tier()
     cfgs = configurations(tier)
-    if tier != "quick" and len(cfgs) > 3000:
-        rnd = common.rng(PROP, "sub")
-        keep = [c for c in cfgs if len(c[0]) < 2]
-        rest = [c for c in cfgs if len(c[0]) == 2]
-        cfgs = keep + rnd.sample(rest, 3000 - len(keep)) if len(keep) < 3000 else keep
+    if tier != "quick":
+        R_exhaustive = True       # the whole matrix (pre-import sets of size <= 2 x environment values x loadability) is enumerated
     nshards = 16
     jobs = [dict(seed="%d/%s/%d" % (common.seed(), PROP, s), cfgs=[[list(p), e, ld] for p, e, ld in cfgs[s::nshards]]) for s in range(nshards)]
     R = common.Run(PROP, "exploration", RULE)
@@ -143,6 +140,7 @@ def main():
             continue
         R.merge(res)
     R.extra["configurations"] = len(cfgs)
+    R.extra["exhaustive"] = tier != "quick"
     R.assumptions = ["the native libsnark wheel is absent: a stand-in module makes the two libsnark names loadable so that only their *selection* is exercised",
                      "flatbuffers is a Builder stand-in; qaptools executables are failing stubs"]
     return R.finish(require_counters=("stage1_judged", "stage2_judged", "stage3_judged", "loud_failures_judged", "unknown_name_diagnosed", "smoke_ok"))
